@@ -27,7 +27,7 @@ func init() {
 			return 7200
 		},
 		Run:      runC03,
-		Required: []string{"epochs", "innovations.link", "innovations.node", "reuse.link", "reuse.node", "epochs.parallel"},
+		Required: []string{"epochs", "innovations.link", "innovations.node", "reuse.link", "reuse.node", "epochs.parallel", "scenarios.modular_start_genome"},
 	})
 }
 
@@ -48,6 +48,31 @@ func runC03(c *Ctx, idx int) {
 	if idx%3 == 1 {
 		// evolve -> Population.Write -> ReadPopulation -> evolve on: the reader initialises the counters from a heterogeneous population
 		sc.RestoreAt = 3 + r.Intn(sc.Epochs-4)
+	}
+	if idx%8 == 5 {
+		// a modular start genome (the shipped one; the control node ids of its two modules possibly swapped): spawned and evolved by the sequential executor; the ids of the control nodes are node ids as well
+		g, err := loadShippedGenome(modularGenomeFile)
+		if err != nil {
+			panic("harness: " + err.Error())
+		}
+		ms := snapGenome(g)
+		if r.Intn(2) == 0 {
+			// the control node ids need not ascend with the modules' innovation numbers (which stay in order)
+			ms.Modules[0].CtrlId = ms.Modules[1].CtrlId + 1 + r.Intn(3)
+		}
+		for i := range ms.Genes {
+			ms.Genes[i].W = fbits(r.NormFloat64())
+		}
+		sc.Ctor, sc.Start, sc.StartSrc = ctorSpawn, buildFromSnap(ms), "file:"+modularGenomeFile+" (modular)"
+		sc.Parallel = false
+		sc.RestoreAt = 0
+		// asexual reproduction only: the crossovers are not defined for modules (they pile up the control genes of both
+		// parents, outside every property - C01 and C04 exclude modular genomes), mutation and duplication are
+		sc.Opts.MutateOnlyProb = 1
+		if sc.Epochs > 15 {
+			sc.Epochs = 15
+		}
+		c.Count("scenarios.modular_start_genome", 1)
 	}
 	mon := &innovMonitor{links: map[int64]linkKey{}, roles: map[int]byte{}}
 	runScenario(c, sc, mon)
@@ -96,6 +121,17 @@ func (m *innovMonitor) register(c *Ctx, sc *EvoScenario, gen int, pop *genetics.
 				return false
 			}
 			m.roles[n.Id] = byte(n.NeuronType)
+		}
+		// the control node of a module is a node of a role of its own (200)
+		for _, cg := range org.Genotype.ControlGenes {
+			if cg.ControlNode == nil {
+				continue
+			}
+			if prev, ok := m.roles[cg.ControlNode.Id]; ok && prev != 200 {
+				c.Violate("node-two-roles", m.detail(sc, gen), "node id %d denotes the control node of a module and a node of role %d", cg.ControlNode.Id, prev)
+				return false
+			}
+			m.roles[cg.ControlNode.Id] = 200
 		}
 	}
 	return true
@@ -150,6 +186,17 @@ func (m *innovMonitor) BeforeEpoch(c *Ctx, sc *EvoScenario, gen int, pop *geneti
 			m.knownNode[n.Id] = true
 			if n.Id > m.maxNode {
 				m.maxNode = n.Id
+			}
+		}
+		for _, cg := range org.Genotype.ControlGenes {
+			if cg.ControlNode != nil {
+				m.knownNode[cg.ControlNode.Id] = true
+				if cg.ControlNode.Id > m.maxNode {
+					m.maxNode = cg.ControlNode.Id
+				}
+			}
+			if cg.InnovationNum > m.maxInn {
+				m.maxInn = cg.InnovationNum
 			}
 		}
 	}
